@@ -125,7 +125,7 @@ Proof.
   split.
   - unfold d. rewrite (d_anc_iff e (rank_of rk) W ro fo n a Ho).
     split; apply ct_incl; intros x y Hxy; apply vedge_iff; exact Hxy.
-  - intros f Hf. unfold d_anc.
+  - intros f Hf. unfold d. rewrite (d_anc_eq e ro fo n). fold d.
     assert (Hdec : forall x y, pedge (d_par d) x y -> rvv (rank_of rk) x < rvv (rank_of rk) y).
     { intros x y Hxy. apply (d_par_iff e (rank_of rk) W) in Hxy. apply (vedge_rank e (rank_of rk) W). exact Hxy. }
     pose proof (owned_bound e (rank_of rk) W n Ho) as Hb.
